@@ -476,6 +476,10 @@ class FnWeaver:
         The summary's contract is the loop invariant; that the loop body (outlined by D6 and proved in its own unit) preserves it is checked by a
         step function in the template; what is assumed is the induction over the iteration (same assumption as D6)."""
         ls = self.loops()
+        if len(ls) == 0:
+            # the function has no loop at all any more: nothing to summarise, its body is judged as it stands
+            self.loops_gone = getattr(self, 'loops_gone', []) + ['%s loop %d' % (self.qual, n)]
+            return
         if n < 1 or n > len(ls):
             self.lost.append('loop %d of %s (function has %d loops)' % (n, self.qual, len(ls)))
             return
@@ -1014,6 +1018,11 @@ class FnWeaver:
         out.emit('\n', 'repo', self.rel, self.line_at(len(self.text)), fn=self.qual)
 
 
+class LoopGone(Exception):
+    """the function an outline (D6) refers to has no loop at all any more: there is no loop body to prove anything about; the whole function
+    is still judged by its own contract where the unit has one"""
+
+
 def outline_loop_body(text, first_line, loop_n, name, params, captures, rel):
     """D6: returns (new_fn_text, first_line_of_new_text).  The body of loop `loop_n` of the function in `text` becomes
     the body of `pub fn name(params, captures...)`.  Rewrites (token based, line structure preserved):
@@ -1040,6 +1049,8 @@ def outline_loop_body(text, first_line, loop_n, name, params, captures, rel):
                 j = src.next_code(j)
             loops.append((k, j, src.matches()[j]))
         k = src.next_code(k)
+    if len(loops) == 0:
+        raise LoopGone('outline: function has no loop left')
     if loop_n < 1 or loop_n > len(loops):
         raise WeaveError('outline: function has %d loops, asked for %d' % (len(loops), loop_n))
     kw, ob, cb = loops[loop_n - 1]
@@ -1211,7 +1222,15 @@ def weave(unit_path):
                         break
                     j += 1
                 i = j - 1
-                text, first_line = outline_loop_body(text, first_line, int(opts['loop']), opts['name'], o_params, o_caps, rel)
+                try:
+                    text, first_line = outline_loop_body(text, first_line, int(opts['loop']), opts['name'], o_params, o_caps, rel)
+                except LoopGone:
+                    # no loop left in that function: skip the outlined body (nothing to prove about a loop that does not exist)
+                    info.setdefault('loops_gone', []).append('%s loop %s' % (qual, opts['loop']))
+                    while i < n and not (DIRECTIVE.match(tlines[i]) and DIRECTIVE.match(tlines[i]).group(1) == 'endfn'):
+                        i += 1
+                    i += 1
+                    continue
                 qual = qual + '#loop%s(%s)' % (opts['loop'], opts['name'])
                 info['rules'].add('D6')
             if d != 'stub':
